@@ -104,11 +104,28 @@ theorem sub_forward {a b : Angle F} (ha : a.Inv) (hb : b.Inv)
         rcases hgt with h | ⟨h, _⟩ <;> rcases hs with rfl | rfl <;> omega
       rw [hD0] at h4; simp [wrap4] at h4; rcases hc with rfl | rfl <;> omega
 
+/-- (S/B) **`(a+b) − b` returns `a`**: the total is within two tolerances of `T a`, with no spurious turns -/
+theorem add_sub_cancel {a b : Angle F} (ha : a.Inv) (hb : b.Inv) :
+    |T ((a.geometricAdd b).geometricSub b) - T a| < 2 * (val (e10 : F) + 1 / 10 ^ 15) := by
+  obtain ⟨hx, hbl, htot⟩ := geometricAdd_spec ha hb
+  have hle : b.blade < (a.geometricAdd b).blade ∨ (b.blade = (a.geometricAdd b).blade ∧ val b.rem ≤ val (a.geometricAdd b).rem) := by
+    by_cases hlt : b.blade < (a.geometricAdd b).blade
+    · exact Or.inl hlt
+    · right
+      have hnc : (a.geometricAdd b).blade = a.blade + b.blade := by rcases hbl with h | h <;> omega
+      exact ⟨by omega, (geometricAdd_nocarry_rem ha hb hnc).1⟩
+  have h2 := sub_total hx hb hle
+  have e : T (a.geometricAdd b) - (T a + T b) =
+      (val (a.geometricAdd b).rem + (((a.geometricAdd b).blade : ℝ) - ((a.blade + b.blade : ℕ) : ℝ)) * val (qp : F))
+        - (val a.rem + val b.rem) := by unfold T; push_cast; ring
+  rw [← e] at htot
+  rw [abs_lt] at htot h2 ⊢
+  constructor <;> linarith [htot.1, htot.2, h2.1, h2.2]
+
 end S
 
-/-! PARTIAL (not yet proved here; explored by the oracle clauses `roundtrip`, `divf`):
-    `(a+b)−b ≈ a` within twice the tolerance, and `T(a/k) ≈ T(a)/k` for the `Div<f64>` impl (needs the general-path
-    decomposition `newCore_spec` composed with the rounding of `blade·(π/2)+rem` and of the division). -/
+/-! PARTIAL (not yet proved here; explored by the oracle clause `divf`): `T(a/k) ≈ T(a)/k` for the `Div<f64>` impl (needs the
+    general-path decomposition `newCore_spec` composed with the rounding of `blade·(π/2)+rem` and of the division). -/
 
 example {F : Type} [FloatSpec F] : (⟨zero, 3⟩ : Angle F).Inv ∧ (⟨zero, 5⟩ : Angle F).Inv := ⟨inv_zero 3, inv_zero 5⟩
 
